@@ -1336,7 +1336,7 @@ def run(ck):
     tied = True
     import time
     timing = {}
-    for fn in (corr_match, corr_from_atom, corr_api, corr_bonds, corr_full, corr_cx, corr_labels, corr_parse, corr_tokens, corr_bond_spellings):
+    for fn in (corr_match, corr_from_atom, corr_api, corr_bonds, corr_full, corr_cx, corr_add_copy, corr_labels, corr_parse, corr_tokens, corr_bond_spellings):
         t0 = time.time()
         tied = fn(ck) and tied
         timing[fn.__name__] = round(time.time() - t0, 1)
@@ -1568,6 +1568,46 @@ def search_cx(ck):
     for smr in ['C', 'CN', 'CNO', '[C;D2]C(C)C', '[A]C', '[C,N]O', '[M]C', 'C1CC1', 'C=,#C']:
         for cx in CX_BLOCKS:
             check_cx(ck, smr, cx)
+
+
+def corr_add_copy(ck):
+    """QueryContainer.add_atom(Element | str | int) normalisation and Query.copy(full)"""
+    from chython.containers import QueryContainer
+    rng = random.Random(f'{ck.seed}:c08-add')
+    bt = Batches('c08_add', extra='Import ListNotations. Open Scope Z_scope.')
+    atoms = [a for a in atom_grid(ck, rng) if a.iso != 0][::9]
+    args = [('AElem ' + a.term(), a.real()) for a in atoms] + \
+        [(f'ASym (s2l {cstr(x)})', x) for x in ['C', 'N', 'Cl', 'Fe', 'A', 'M', 'Xx', 'c', 'H', 'Og', 'CH', '#6']] + \
+        [(f'ANum {zraw(x)}', x) for x in [1, 6, 26, 118, 0, 119, -1, 1000]]
+    for i in range(0, len(args), 30):
+        part = args[i:i + 30]
+        rows = []
+        for term, x in part:
+            try:
+                g = QueryContainer()
+                rows.append(show_qatom(g.atom(g.add_atom(x))))
+            except Exception as e:
+                rows.append(sexn(e))
+            ck.case(('add_atom', term), nontrivial=not rows[-1].startswith('!'))
+        bt.add(f'b_add {lst(["(" + t + ")" for t, _ in part])} {cstr(chr(10).join(rows))}', ([t for t, _ in part], rows))
+    from chython import smarts
+    bodies = ['C', 'C@', 'C@@;M', 'C;M', '13C@+;D1,D2;h0;r5,r6;x1;z1,z2;M:7', 'A@;D2', 'A;M', 'C,N@;!R', 'C,N;M;a', 'M', 'M;M;D2', 'M;z2', '#6;h1', 'Xx', 'M+', 'C;D15']
+    def sf(a):
+        return show_qatom(a) + '/' + sopt(sbool, getattr(a, 'stereo', None)) + '/' + sbool(a.masked)
+    rows = []
+    for body in bodies:
+        try:
+            a = smarts('[' + body + ']')
+            a = a.atom(next(iter(a._atoms)))
+            rows.append(' '.join([sf(a), sf(a.copy()), sf(a.copy(full=True)), sf(a.copy(full=True).copy())]))
+        except Exception as e:
+            rows.append(sexn(e))
+        ck.case(('copy', body), nontrivial=not rows[-1].startswith('!'))
+    bt.add(f'b_copy {lst(bodies, cstr)} {cstr(chr(10).join(rows))}', (bodies, rows))
+    size = sum(len(c) for c in bt.cases) / max(len(bt.cases), 1)
+    ok, failing, log = coqcases.run_cases(bt.name, IMPORTS + ' SmartsFull', bt.cases, extra=bt.extra, shard=max(10, int(120000 / max(size, 1))), timeout=900)
+    return conclude(ck, 'QueryContainer.add_atom(Element | str | int) == add_atom_norm; Query.copy(full) == qcopy (comparison data, stereo mark, masked flag)', bt, ok,
+                    [bt.meta[i] for i in failing], log)
 
 
 def search_stereo(ck, extra=()):
